@@ -206,8 +206,10 @@ impl source::Fetch for Pinned {
         {
             let _guard = lock.write()?;
             // The index file is the last thing `fetch` writes. A checkout directory without it was
-            // left behind by an interrupted fetch and must not be handed to the compiler.
-            if !repo_path.join(".forc_index").exists() {
+            // left behind by an interrupted fetch and must not be handed to the compiler. The file
+            // must be the one `fetch` wrote for this commit: a repository may itself contain a file
+            // of that name, which the checkout then creates long before it is complete.
+            if !is_checkout_complete(repo_path, &self.commit_hash) {
                 println_action_green(
                     "Fetching",
                     &format!("{} {}", ansiterm::Style::new().bold().paint(ctx.name), self),
@@ -508,6 +510,15 @@ pub fn commit_path(name: &str, repo: &Url, commit_hash: &str) -> PathBuf {
     git_checkouts_directory()
         .join(repo_dir_name)
         .join(commit_hash)
+}
+
+/// Whether `repo_path` holds a checkout that `fetch` finished: its index file exists, parses and
+/// names `commit_hash`.
+fn is_checkout_complete(repo_path: &Path, commit_hash: &str) -> bool {
+    fs::read_to_string(repo_path.join(".forc_index"))
+        .ok()
+        .and_then(|index| serde_json::from_str::<SourceIndex>(&index).ok())
+        .is_some_and(|index| index.head_with_time.0 == commit_hash)
 }
 
 /// Fetch the repo at the given git package's URL and checkout the pinned commit.
